@@ -132,7 +132,8 @@ impl IndexEntry {
     ///
     /// The result has no blocks.
     pub(crate) fn metadata_from(source: &source::Entry) -> IndexEntry {
-        let mtime = source.mtime();
+        // Whole seconds rounded down plus a non-negative fraction, also before the epoch.
+        let mtime = source.mtime().as_nanosecond();
         assert_eq!(
             source.symlink_target().is_some(),
             source.kind() == Kind::Symlink
@@ -142,8 +143,8 @@ impl IndexEntry {
             kind: source.kind(),
             addrs: Vec::new(),
             target: source.symlink_target().map(|t| t.to_owned()),
-            mtime: mtime.as_second(),
-            mtime_nanos: mtime.subsec_nanosecond().try_into().unwrap(),
+            mtime: mtime.div_euclid(1_000_000_000) as i64,
+            mtime_nanos: mtime.rem_euclid(1_000_000_000) as u32,
             unix_mode: source.unix_mode(),
             owner: source.owner().to_owned(),
         }
